@@ -10,5 +10,6 @@ func main() {
 		"C09": {Run: c09Run, Replay: c09Replay},
 		"C10": {Run: c10Run, Replay: c10Replay},
 		"C11": {Run: c11Run, Replay: c11Replay},
+		"C12": {Run: c12Run, Replay: c12Replay},
 	})
 }
